@@ -289,7 +289,7 @@ class Replica:
                 l[:] = [x for x in l if x["ace"] != e["ace"]]
         elif ev == "AclDelete":
             self.mode = ("", "")
-            if e["n"] in self.acls and not self.referenced(e["n"]):
+            if e["n"] in self.acls:       # IOS deletes a list that is still referenced (Ios.tla AclDelete)
                 del self.acls[e["n"]]
         elif ev == "IntfEnter":
             self.mode = ("if", e["i"]) if e["i"] in self.intfs else ("", "")
